@@ -14,6 +14,7 @@ the claim (see META["outside"]).  What is decided here:
 """
 from __future__ import annotations
 
+import logging
 import threading
 from typing import List
 
@@ -25,6 +26,9 @@ from sqlalchemy import exc as sa_exc
 from sqlalchemy import pool as sa_pool
 
 PID = "C25"
+
+# error logging of the pool ("%r" of connections) is not part of the property and is slow under the tracer
+logging.disable(logging.CRITICAL)
 
 STEP_OPS = ["checkout", "checkout_creator_fails", "return", "return_reset_fails", "invalidate_return",
             "soft_invalidate_return", "inc_overflow", "dec_overflow"]
@@ -575,7 +579,7 @@ META = {
         "SingletonThreadPool with real threads (thread identities are emulated sequentially); which connection _cleanup() discards",
         "StaticPool soft invalidation (documented as only partially supported)",
     ],
-    "stubs": ["creator = vlib.fakedb FakeServer.connect (can be told to raise)"],
+    "stubs": ["creator = vlib.fakedb FakeServer.connect (can be told to raise)", "logging disabled (logging.disable(CRITICAL))"],
     "assumptions": [
         "QueuePool representation invariant assumed for the pre-state and re-established by every step: -pool_size <= _overflow; "
         "_overflow <= max_overflow when max_overflow > -1; 0 <= idle <= pool_size; idle <= pool_size + _overflow "
